@@ -241,6 +241,13 @@ def _check_interval(ctx, spec, seg, t0, t1, size, iv):
 
 def check_path(case, ctx):
     specs = case['segs']
+    # conditioning: a segment that is smaller than ~1e-7 of its distance from the origin has no significant digits left in the
+    # differences of its own coordinates (neither for the library nor for the reference)
+    for sp in specs:
+        ext = gen.spec_size([sp])
+        far = max(abs(gen.C(p)) for p in gen.spec_points(sp))
+        if 0 < ext < 1e-7 * far:
+            ctx.discard('segment extent below 1e-7 of its coordinates')
     path = ctx.lib('build', gen.build_path, specs)
     ctx.count('path')
     total = ctx.lib('Path.length', path.length)
